@@ -34,7 +34,13 @@ KF_Torque == "KF_C18_TorquePointForce"
 KF_LA == "KF_C18_LAColumnDropped"
    (* the prescribed load-asymmetry amplitude c2 = LA = r2 tan(beta) is inserted into c by calc_full_c, but
       calc_fext never subtracts inc*LA*k0uk[:,2] (it does so for amplitudes 0 and 1) *)
+KF_Null == "KF_C18_LoadOnNullStiffness"
+   (* static(): compmech.sparse.solve drops the null rows/columns of K_uu and returns 0 there without looking at
+      the right-hand side, so a load on an amplitude that has no stiffness is silently ignored and K_uu c_u = f_u
+      fails in that row (seen with the cone kernel of clpt_donnell_bc2, whose v and w rows of the (i2, j2) block
+      are entirely zero) *)
 LoadDeviations == {KF_Torque, KF_LA}
+StaticDeviations == {KF_Null}
 
 (* ------------------------------ models --------------------------------- *)
 ModelNames == {"clpt_donnell_bc1", "clpt_donnell_bc2", "clpt_donnell_bc3", "clpt_donnell_bc4",
@@ -234,6 +240,17 @@ VWork(o, sh, ld, kuk, inc) ==
                             WPrescribed(o, kuk, a))
           IN PAdd(const, PScale(inc, incr))]
 
+(* ------------------------------ linear static solution ------------------ *)
+(* rows of K_uu c_u = f_u that fail: |K c - f|_a > 2^-t (SUM_b |K_ab||c_b| + |f_a|)     (observed numbers)  *)
+AbsSeq(s) == [k \in 1..Len(s) |-> RAbs(s[k])]
+StaticBadRows(K, c, f, t, dev) ==
+    LET ac == AbsSeq(c)
+    IN { a \in 1..Len(f) :
+           LET r == RSub(RDot(K[a], c), f[a])
+               S == RAdd(RDot(AbsSeq(K[a]), ac), RAbs(f[a]))
+           IN /\ ~RLe(RAbs(r), RMul(S, RTwoPow(-t)))
+              /\ ~(KF_Null \in dev /\ RIsZero(c[a]) /\ \A b \in 1..Len(c) : RIsZero(K[a][b])) }
+
 (* ------------------------------ state machine --------------------------- *)
 VARIABLES shell, loads, kukm, out, lastInc
 lvars == <<obj, phase, nreb, given, shell, loads, kukm, out, lastInc>>
@@ -284,7 +301,7 @@ FextLength == out # <<>> => Len(out) = Size(shell) - Len(obj.xs)
 ZeroObj == [obj EXCEPT !.nxx = Some(Zeros(2*obj.n2 + 1)), !.uTM = RZero, !.thetaT = PZ, !.LA = Some(RZero),
                        !.cks = [n \in 1..Len(obj.cks) |-> PZ]]
 AffineInInc ==
-    (out # <<>> /\ lastInc \notin {RZero, ROne}) =>
+    (out # <<>> /\ lastInc \notin {RZero, ROne} /\ (Tier # "quick" \/ lastInc = I(2))) =>
         LET f0 == Values(FExtCode(obj, shell, loads, kukm, RZero, Dev))
             f1 == Values(FExtCode(obj, shell, loads, kukm, ROne, Dev))
             fc == Values(FExtCode(ZeroObj, shell, [loads EXCEPT !.forcesInc = <<>>, !.Pinc = RZero, !.Tinc = RZero],
@@ -295,10 +312,12 @@ AffineInInc ==
 Parts(ld) == << [NoLoads EXCEPT !.forces = ld.forces], [NoLoads EXCEPT !.forcesInc = ld.forcesInc],
                 [NoLoads EXCEPT !.P = ld.P, !.Pinc = ld.Pinc], [NoLoads EXCEPT !.T = ld.T, !.Tinc = ld.Tinc] >>
 Superposition ==
-    out # <<>> =>
-        LET zo == TLCEval(ZeroObj)
-            pv == [n \in 1..4 |-> Values(FExtCode(zo, shell, Parts(loads)[n], kukm, lastInc, Dev))]
+    (out # <<>> /\ (Tier # "quick" \/ lastInc = RFrac(1, 2))) =>
+        LET p1 == Values(FExtCode(ZeroObj, shell, Parts(loads)[1], kukm, lastInc, Dev))
+            p2 == Values(FExtCode(ZeroObj, shell, Parts(loads)[2], kukm, lastInc, Dev))
+            p3 == Values(FExtCode(ZeroObj, shell, Parts(loads)[3], kukm, lastInc, Dev))
+            p4 == Values(FExtCode(ZeroObj, shell, Parts(loads)[4], kukm, lastInc, Dev))
             rest == Values(FExtCode(obj, shell, NoLoads, kukm, lastInc, Dev))         \* axial load, prescribed amplitudes
         IN \A a \in 1..Len(out) :
-              out[a][1] = PAdd(rest[a], PAdd(PAdd(pv[1][a], pv[2][a]), PAdd(pv[3][a], pv[4][a])))
+              out[a][1] = PAdd(rest[a], PAdd(PAdd(p1[a], p2[a]), PAdd(p3[a], p4[a])))
 =============================================================================
